@@ -25,6 +25,9 @@ def _proj():
         triggers.write_project(d, names=set(FILES))
         (Path(d) / "src" / "sub").mkdir()
         (Path(d) / "src" / "sub" / "deep.py").write_text(triggers.T["magic.py"][3].replace("3975", "4801"))
+        # a pair of files whose findings would differ if analyzer state leaked from file to file
+        (Path(d) / "src" / "aliasmod.py").write_text("import re as rx\n\n\nWORD = rx.compile('a+')\n\n\ndef words(text):\n    return WORD.findall(text)\n")
+        (Path(d) / "src" / "sub" / "rows.py").write_text("def scan(rows):\n    out = []\n    for rx in rows:\n        out.append(rx.split(','))\n    return out\n")
         body = triggers.DUP_FILES["dup1.py"].split("\n", 1)[1].replace("total", "amount")
         (Path(d) / "src" / "selfdup.py").write_text("def one(rows):\n" + body + "\n\ndef two(rows):\n" + body)
         _P["d"] = Path(d)
@@ -47,7 +50,9 @@ def h_union(ctx):
     kind = ctx.pick("run", ("file-list", "directory", "directory-non-recursive"))
     ign.clear_ignore_parser_cache()
     if kind == "file-list":
-        chosen = [f for f in allf if ctx.flag("in_" + f.name)]
+        # membership bits for 8 of the files; the remaining ones are always in the list
+        free = {"magic.py", "dup1.py", "dup2.py", "aliasmod.py", "rows.py", "unwrap.rs", "nest.ts", "selfdup.py"}
+        chosen = [f for f in allf if (f.name not in free) or ctx.flag("in_" + f.name)]
         got = _per_file(Orchestrator(project_root=d).lint_files(chosen))
     elif kind == "directory":
         chosen = allf
@@ -104,7 +109,7 @@ def obligations(tier):
     return [
         Ob(name="K1-directory-and-file-list-equal-union", engine="pathex", harness=h_union,
            functions=["Orchestrator.lint_files/lint_directory/lint_file", "_collect_files_fast", "every per-file rule's check()"],
-           bounds="forked: every subset of the %d project files as an explicit list (membership bits are solver booleans enumerated by forking), the directory, the directory non-recursively" % (len(FILES) + 1),
+           bounds="forked: every subset of 8 of the %d project files as an explicit list, the rest always included (membership bits are solver booleans enumerated by forking), the directory, the directory non-recursively" % (len(FILES) + 1),
            timeout=900, workers=14, must_cover=("nonempty", "empty")),
         Ob(name="K1b-cli-equals-library", engine="pathex", harness=h_cli_vs_api,
            functions=["every linter command (in-process CLI)", "Linter.lint/_lint_path/_filter_violations", "each command's _run_*_lint filter"],
